@@ -190,6 +190,7 @@ def stepCons (d : ConsDrv) (a : Acc) (s : Step) : ConsDrv × Acc :=
     let a := if !implSent.isEmpty || st.pending.isSome then { a with nontrivial := a.nontrivial + 1 } else a
     let a := a.spec s.lineNo "C09.no-send-while-blocked" (Spec.Cons.noSendWhileBlocked st implSent)
     let a := a.spec s.lineNo "C09.send-shape" (Spec.Cons.sendShape st t implSent)
+    let a := a.spec s.lineNo "C08.flags-survive-apply" (Spec.Cons.flagsSurviveApply st t) s!"before={st.outstanding} after={t.outstanding}"
     let a := a.spec s.lineNo "C09.send-when-permitted" (Spec.Cons.sendWhenPermitted st implSent)
       s!"queue={renderQueue st.queue} record={cget d.f "record"} now={st.now} retry={st.retryDelay}"
     let a := a.spec s.lineNo "C01.applycc-effect" (Spec.C01.applyOK st.cc (st.pending.getD []) implRet t.cc)
